@@ -983,15 +983,27 @@ func callBuiltin(caller *frame, callpos token.Pos, fn *ssa.Builtin, args []value
 		}
 		if isStr(args[1]) {
 			// append([]byte, ...string) []byte
-			return append(args[0].([]value), strBytes(args[1])...)
+			sb := strBytes(args[1])
+			raceAppend(args[0].([]value), nil, len(sb))
+			return append(args[0].([]value), sb...)
 		}
 		// append([]T, ...[]T) []T
+		raceAppend(args[0].([]value), args[1].([]value), len(args[1].([]value)))
 		return append(args[0].([]value), args[1].([]value)...)
 
 	case "copy": // copy([]T, []T) int or copy([]byte, string) int
 		src := args[1]
 		if isStr(src) {
 			src = strBytes(src)
+		} else if RaceOn {
+			n := len(src.([]value))
+			if d := len(args[0].([]value)); d < n {
+				n = d
+			}
+			raceReadElems(src.([]value), n)
+		}
+		if RaceOn {
+			raceWriteElems(args[0].([]value), len(src.([]value)))
 		}
 		return copy(args[0].([]value), src.([]value))
 
@@ -1001,6 +1013,9 @@ func callBuiltin(caller *frame, callpos token.Pos, fn *ssa.Builtin, args []value
 		return nil
 
 	case "delete": // delete(map[K]value, K)
+		if RaceOn && args[0].(*omap) != nil {
+			raceWrite(args[0].(*omap))
+		}
 		args[0].(*omap).delete(args[1])
 		return nil
 
